@@ -192,6 +192,8 @@ def run_derived(chk, spec):
 		"rlshift-empty": lambda: [] << v, "lshift-empty-tuple": lambda: v << (), "sort": lambda: v.sort_by(), "fillna": lambda: v.fillna(vals[0]), "dropna": lambda: v.dropna(),
 		"pos": lambda: +v, "cast-same": lambda: v.cast(type(vals[0])) if not kind.startswith("object") else v.cast(object), "to_object": lambda: v.to_object(), "index-all": lambda: v[list(range(n))],
 		"table-column": lambda: Table([v]).cols()[0], "table-column-slice": lambda: Table([v])[0:n].cols()[0], "unique": lambda: Vector(sorted(set(vals))).unique(), "copy-of-copy": lambda: v.copy().copy(),
+		"empty-left-lshift-vector": lambda: v[0:0] << v, "empty-left-lshift-tuple": lambda: v[n:] << tuple(vals), "typed-empty-lshift-vector": lambda: Vector(dtype=v.schema().kind if v.schema() else int) << v,
+		"empty-mask-lshift-vector": lambda: v[[False] * n] << v, "lshift-empty-vector": lambda: v << v[0:0],
 		"rshift-column": lambda: (v >> v).cols()[1], "lshift-none-then-slice": lambda: (v << [])[0:n],
 	}
 	o = call(ops[spec["op"]])
@@ -269,7 +271,7 @@ def run_table_sharing(chk, spec):
 		chk.fail("a former sharer whose partners were dropped and collected is writable", "alias/spurious-refusal/former-sharer/table-column", f"{spec!r}: after the sharer was collected t[0, {pos}] = 43 raised {s2!r}")
 
 
-DERIVED_OPS = ["copy", "slice-full", "slice-0-n", "slice-0-big", "slice-neg", "slice-step1", "mask-all", "mask-all-vector", "T", "lshift-empty", "rlshift-empty", "lshift-empty-tuple",
+DERIVED_OPS = ["empty-left-lshift-vector", "empty-left-lshift-tuple", "typed-empty-lshift-vector", "empty-mask-lshift-vector", "lshift-empty-vector", "copy", "slice-full", "slice-0-n", "slice-0-big", "slice-neg", "slice-step1", "mask-all", "mask-all-vector", "T", "lshift-empty", "rlshift-empty", "lshift-empty-tuple",
 	"sort", "fillna", "dropna", "pos", "cast-same", "to_object", "index-all", "table-column", "table-column-slice", "unique", "copy-of-copy", "rshift-column", "lshift-none-then-slice"]
 RUNNERS = {"table_sharing": run_table_sharing, "history": run_history, "burst": run_burst, "sharing": run_sharing, "derived": run_derived}
 
